@@ -73,7 +73,7 @@ func c15One(id int, c *c15Case, dir string, seed int64) []lib.Ev {
 	nIns := 0
 	rng := lib.Rng(seed, id, "blob")
 	for _, o := range c.Ops {
-		ev := lib.Ev{"op": o.Op, "i": o.I, "len": o.Len}
+		ev := lib.Ev{"op": o.Op, "i": o.I, "len": o.Len, "indbefore": fh != nil && fh.RootIndirectBlock != nil}
 		switch o.Op {
 		case "ins":
 			nIns++
